@@ -385,6 +385,24 @@ impl Prop for C05 {
             v.push(case_of(&plan, json!({})));
         }
         v.push(json!({"f": "pair-codec", "seed": seed}));
+        // entropy sweep: a zero draw at every draw index of the customer's Ready::start (one of them
+        // is the blinding factor of the lock commitment); the right revocation must still complete
+        let sweep = if tier == Tier::Quick { 1 } else { 3 };
+        for at in 0..96usize {
+            for w in 0..sweep {
+                let plan = Plan {
+                    seed: mix(&[seed, 0xC05E, at as u64, w]),
+                    merchants: vec!["9001".into()],
+                    channels: vec![ChanPlan { merchant: 0, cust_bal: 70, merch_bal: 7, est_cs_faults: vec![], est_pt_faults: vec![], payments: vec![PayPlan { amount: 3, cs_faults: vec![], lock_faults: vec![LockFault::WrongBf { mode: 1 }], pt_faults: vec![] }], stop_at: 1, stop_stage: "ready".into() }],
+                    order: vec![0],
+                    wire: at % 2 == 0,
+                    crash: "none".into(),
+                    crash_steps: vec![],
+                    entropy: vec![EntropyPlan { chan: 0, pay: 0, op: "start".into(), at, width: 1, kind: "zeros".into() }],
+                };
+                v.push(case_of(&plan, json!({})));
+            }
+        }
         for k in 0..(if tier == Tier::Quick { 4u64 } else { 200 }) {
             v.push(json!({"f": "byzantine-customer", "seed": mix(&[seed, 0xC05B, k]), "variant": if k % 2 == 0 { "old-lock-mismatch-linked" } else { "old-lock-mismatch-unlinked" },
                           "cust": 500 + k, "merch": 40 + k, "amount": 5, "history": 0, "mspec": "9001"}));
@@ -444,7 +462,7 @@ impl Prop for C05 {
         shrink_world_case(case)
     }
     fn rule(&self) -> String {
-        "three case families. byzantine-customer: a lying customer (C02's raw prover) presents a pay proof whose revocation-lock commitment is to a decoy lock; if the merchant accepts, the decoy pair completes the payment and the old state is never revoked. pair-codec: revocation pairs whose SHA3 digest lies in chosen bands (found by a seeded brute-force search over ~10^6 secrets: just above the group order q, just below q, near 2^256, any value >= q) are presented to the decoder as (digest mod q, secret, index) and as (raw digest, secret, index), and their secrets are fed to pair generation through a crafted entropy stream; every pair that decodes or is generated must satisfy lock = SHA3(secret || index) as a canonical scalar, and canonical ones must decode. world: one case = one plan in which every accepted pay proof is followed, before the right (pair, blinding factor), by 0-6 wrong candidates carried to the merchant's pending payment: the new state's pair (read from the customer's stage image), a fresh pair, a pair recorded from another payment / channel, the right pair with a random / off-by-one / foreign blinding factor, and pair encodings with lock, secret or index altered (which the decoder must refuse). Distinct = distinct executed event/outcome sequence; non-trivial = at least one wrong candidate was presented".into()
+        "four case families. entropy-sweep: single-payment plans with a zero draw injected at each draw index of the customer's Ready::start (one of them is the blinding factor of the lock commitment): whenever the merchant accepts the pay proof, a wrong blinding factor must be refused and the right pair must complete the payment. byzantine-customer: a lying customer (C02's raw prover) presents a pay proof whose revocation-lock commitment is to a decoy lock; if the merchant accepts, the decoy pair completes the payment and the old state is never revoked. pair-codec: revocation pairs whose SHA3 digest lies in chosen bands (found by a seeded brute-force search over ~10^6 secrets: just above the group order q, just below q, near 2^256, any value >= q) are presented to the decoder as (digest mod q, secret, index) and as (raw digest, secret, index), and their secrets are fed to pair generation through a crafted entropy stream; every pair that decodes or is generated must satisfy lock = SHA3(secret || index) as a canonical scalar, and canonical ones must decode. world: one case = one plan in which every accepted pay proof is followed, before the right (pair, blinding factor), by 0-6 wrong candidates carried to the merchant's pending payment: the new state's pair (read from the customer's stage image), a fresh pair, a pair recorded from another payment / channel, the right pair with a random / off-by-one / foreign blinding factor, and pair encodings with lock, secret or index altered (which the decoder must refuse). Distinct = distinct executed event/outcome sequence; non-trivial = at least one wrong candidate was presented".into()
     }
     fn assumptions(&self) -> Vec<String> {
         vec!["SHA3-256(secret || index) is recomputed by the harness for every pair seen in a lock message or accepted by the decoder".into()]
@@ -463,6 +481,7 @@ impl Prop for C05 {
             "probe.band_just_above_q_refused",
             "probe.band_just_below_q_accepted",
             "probe.crafted_generation_checked",
+            "fault.entropy.customer-zero-draw",
         ]
     }
 }
@@ -704,6 +723,85 @@ pub fn c14_oracle(plan: &Plan, rr: &RunResult, o: &mut Outcome) {
                     );
                 }
             }
+            // (2b) the mask of a hidden value must itself stay hidden: for every response scalar
+            // z = c*m + s over a hidden m, the commitment scalar s = z - c*m (computable by the
+            // harness, which knows m from the customer's state and c from the merchant's hook) must
+            // not occur anywhere in the merchant's view — otherwise m = (z - s)/c is disclosed.
+            if let (Some(c), false) = (ev.challenge, faulty_entropy) {
+                let rd_u64 = |img: &Trace, p: &str| -> Option<Scalar> {
+                    img.find(p).map(|i| {
+                        let mut x = [0u8; 8];
+                        x.copy_from_slice(img.atom_bytes(i));
+                        Scalar::from(u64::from_le_bytes(x))
+                    })
+                };
+                let rd_sc = |img: &Trace, p: &str| -> Option<Scalar> { img.find(p).and_then(|i| refc::sc_opt(img.atom_bytes(i))) };
+                let mut hidden: Vec<(String, Option<Scalar>)> = Vec::new();
+                let mrs = "commitment_proof.message_response_scalars";
+                match (ev.kind.as_str(), &ev.image_after) {
+                    ("establish-proof", Some((_, img))) => {
+                        hidden.push((format!("state_proof.{}[1]", mrs), rd_sc(img, "state.nonce")));
+                        hidden.push((format!("state_proof.{}[2]", mrs), rd_sc(img, "state.revocation_pair.lock")));
+                        hidden.push((format!("close_state_proof.{}[2]", mrs), rd_sc(img, "state.revocation_pair.lock")));
+                        hidden.push(("state_proof.commitment_proof.blinding_factor_response_scalar".into(), rd_sc(img, "pay_token_blinding_factor")));
+                        hidden.push(("close_state_proof.commitment_proof.blinding_factor_response_scalar".into(), rd_sc(img, "close_state_blinding_factor")));
+                    }
+                    ("start-message", Some((_, img))) => {
+                        let id = img.find("new_state.channel_id").map(|i| refc::sc_raw(img.atom_bytes(i)));
+                        for pf in ["state_proof", "close_state_proof"] {
+                            hidden.push((format!("[1].{}.{}[0]", pf, mrs), id));
+                            hidden.push((format!("[1].{}.{}[2]", pf, mrs), rd_sc(img, "new_state.revocation_pair.lock")));
+                            hidden.push((format!("[1].{}.{}[3]", pf, mrs), rd_u64(img, "new_state.customer_balance")));
+                            hidden.push((format!("[1].{}.{}[4]", pf, mrs), rd_u64(img, "new_state.merchant_balance")));
+                        }
+                        hidden.push((format!("[1].state_proof.{}[1]", mrs), rd_sc(img, "new_state.nonce")));
+                        hidden.push((format!("[1].old_pay_token_proof.{}[0]", mrs), id));
+                        hidden.push((format!("[1].old_pay_token_proof.{}[2]", mrs), rd_sc(img, "old_state.revocation_pair.lock")));
+                        hidden.push((format!("[1].old_pay_token_proof.{}[3]", mrs), rd_u64(img, "old_state.customer_balance")));
+                        hidden.push((format!("[1].old_pay_token_proof.{}[4]", mrs), rd_u64(img, "old_state.merchant_balance")));
+                        hidden.push(("[1].old_revocation_lock_proof.message_response_scalars[0]".into(), rd_sc(img, "old_state.revocation_pair.lock")));
+                        hidden.push(("[1].state_proof.commitment_proof.blinding_factor_response_scalar".into(), rd_sc(img, "blinding_factors.for_pay_token")));
+                        hidden.push(("[1].close_state_proof.commitment_proof.blinding_factor_response_scalar".into(), rd_sc(img, "blinding_factors.for_close_state")));
+                        hidden.push(("[1].old_revocation_lock_proof.blinding_factor_response_scalar".into(), rd_sc(img, "blinding_factors.for_old_revocation_lock")));
+                    }
+                    _ => {}
+                }
+                let mut checked = 0u64;
+                for (zpath, mval) in hidden {
+                    let (zi, mval) = match (t.find(&zpath), mval) {
+                        (Some(zi), Some(mv)) => (zi, mv),
+                        _ => crate::harness_error(&format!("C14: cannot locate response scalar `{}` or its hidden value (field naming drift)", zpath)),
+                    };
+                    let z = match refc::sc_opt(t.atom_bytes(zi)) {
+                        Some(z) => z,
+                        None => continue,
+                    };
+                    let mask = refc::scb(&(z - c * mval)).to_vec();
+                    if mask[..] == *t.atom_bytes(zi) {
+                        // hidden value 0: the response is the mask and discloses nothing
+                        continue;
+                    }
+                    checked += 1;
+                    // a mask can coincide with a *response* scalar of the same message only when a
+                    // linked hidden value is zero (z = s), which discloses nothing; what must not
+                    // happen is that it is one of the scalars the message reveals as such
+                    let in_msg = mine.iter().find(|(b, p)| *b == mask && !p.contains("response_scalar")).map(|(_, p)| p.clone());
+                    if let Some(p) = in_msg {
+                        o.violate(
+                            "mask-of-hidden-value-revealed",
+                            &format!("{}:{}", kind_site, strip_idx(&zpath)),
+                            format!("channel {} payment {}: the commitment scalar masking the hidden value behind {} is itself in the message (atom {}), so the hidden value can be computed", ev.chan, ev.pay, zpath, p),
+                        );
+                    } else if seen.contains(&mask) {
+                        o.violate(
+                            "mask-of-hidden-value-revealed",
+                            &format!("{}:{}", kind_site, strip_idx(&zpath)),
+                            format!("channel {} payment {}: the commitment scalar masking the hidden value behind {} equals a value already in the merchant's view ({})", ev.chan, ev.pay, zpath, seen_from.get(&mask).cloned().unwrap_or_default()),
+                        );
+                    }
+                }
+                o.add("probe.hidden_value_masks_checked", checked);
+            }
             // (3) hidden balances as scalars (pay proofs hide them)
             if ev.kind == "start-message" && !faulty_entropy {
                 for img in [&ev.image_before, &ev.image_after].iter().filter_map(|x| x.as_ref()) {
@@ -792,7 +890,7 @@ impl Prop for C14 {
         let plan = plan_of(case);
         let rr = run_plan(&plan, &mut o);
         c14_oracle(&plan, &rr, &mut o);
-        keep(&mut o, &["value-reuse", "secret-in-message", "hidden-balance-in-message", "nonce-not-fresh", "revocation-lock-not-fresh", "channel-id-not-fresh", "panic"]);
+        keep(&mut o, &["mask-of-hidden-value-revealed", "value-reuse", "secret-in-message", "hidden-balance-in-message", "nonce-not-fresh", "revocation-lock-not-fresh", "channel-id-not-fresh", "panic"]);
         o.nontrivial = o.stats.get("probe.customer_messages_checked").cloned().unwrap_or(0) >= 3;
         o
     }
@@ -800,13 +898,13 @@ impl Prop for C14 {
         shrink_world_case(case)
     }
     fn rule(&self) -> String {
-        "one case = one multi-channel plan (2-4 channels over two merchants, 0-3 payments each, closes from every stage, refused replies, drawn interleaving; in a third of the cases additionally a zero draw injected at a drawn draw index of the customer's generator inside start / close, in which case only signature elements are judged and the identity is exempt); after the run every 32/48/96-byte atom of every customer-to-merchant message is compared with all atoms of all earlier messages in either direction and of the public parameters (channel id exempt), with the atoms of the customer's stage image before/after the step minus what the message discloses by design, and with the scalar encodings of hidden balances. Distinct = distinct executed event/outcome sequence; non-trivial = at least three customer messages were checked".into()
+        "one case = one multi-channel plan (2-4 channels over two merchants, 0-3 payments each, closes from every stage, refused replies, drawn interleaving; in a third of the cases additionally a zero draw injected at a drawn draw index of the customer's generator inside start / close, in which case only signature elements are judged and the identity is exempt); after the run every 32/48/96-byte atom of every customer-to-merchant message is compared with all atoms of all earlier messages in either direction and of the public parameters (channel id exempt), with the atoms of the customer's stage image before/after the step minus what the message discloses by design, and with the scalar encodings of hidden balances; and for every response scalar over a hidden value the commitment scalar that masks it (computed from the customer's state and the merchant's challenge, read through the hook) must not occur in the merchant's view. Distinct = distinct executed event/outcome sequence; non-trivial = at least three customer messages were checked".into()
     }
     fn assumptions(&self) -> Vec<String> {
         vec!["exact-value reuse is a necessary condition for unlinkability, not a proof of zero knowledge".into(), "equalities inside one message (linked response scalars) are allowed".into()]
     }
     fn required_probes(&self, _tier: Tier) -> Vec<&'static str> {
-        vec!["probe.customer_messages_checked", "probe.payment_completed", "probe.stop_at_started", "probe.stop_at_locked", "fault.entropy.customer-zero-draw"]
+        vec!["probe.customer_messages_checked", "probe.payment_completed", "probe.stop_at_started", "probe.stop_at_locked", "fault.entropy.customer-zero-draw", "probe.hidden_value_masks_checked"]
     }
 }
 
@@ -912,7 +1010,13 @@ impl Prop for C20 {
             o.violate("restored-customer-diverges", &kind, format!("never-stored vs crashed-and-restored customer: {}", d));
         }
         o.events += oa.events;
-        keep(&mut o, &["restored-customer-diverges", "restored-image-differs", "stored-stage-rejected", "truncated-image-accepted", "panic"]);
+        // ledger / identity classes are kept only if the never-stored twin does not show them too
+        let a_classes: BTreeSet<String> = oa.violations.iter().map(|v| v.class.clone()).collect();
+        o.violations.retain(|v| !(["channel-id-changed", "closing-message-wrong-channel-id", "balance-differs-from-ledger", "closing-message-wrong-balances"].contains(&v.class.as_str()) && a_classes.contains(&v.class)));
+        keep(
+            &mut o,
+            &["restored-customer-diverges", "restored-image-differs", "stored-stage-rejected", "truncated-image-accepted", "panic", "channel-id-changed", "closing-message-wrong-channel-id", "balance-differs-from-ledger", "closing-message-wrong-balances"],
+        );
         o.nontrivial = o.stats.get("fault.crash_restore").cloned().unwrap_or(0) > 0;
         o
     }
